@@ -112,6 +112,17 @@ def prog_fields(progid):
     return dict(focus=f[0], kind=f[1], par=f[2], set=f[3], section=f[4], origin=f[5])
 
 
+SET_INFO = {}          # input set name -> length of its longest string (filled by input_sets)
+
+
+def strings_class(setname):
+    """how long the longest string of the input is: the granularity at which some recorded findings are stated"""
+    m = SET_INFO.get(setname)
+    if m is None:
+        return "?"
+    return "long255" if m >= 255 else "long128" if m >= 128 else "short"
+
+
 def signature(b):
     pf = prog_fields(b["prog"])
     kind = b["kind"] if b["kind"] not in ("?", "") else pf["kind"]
@@ -119,7 +130,7 @@ def signature(b):
     site = b.get("site", "")
     return {"kind": kind, "origin": b["origin"] if b["origin"] not in ("?", "") else pf["origin"], "ev": b["ev"], "why": b["why"],
             "site": site, "site_fn": site.split("@")[0], "cls": b.get("cls", ""), "op": during.split(" ")[0] if during else "", "p": b["p"],
-            "set": pf["set"], "section": pf["section"], "par": pf["par"]}
+            "set": pf["set"], "section": pf["section"], "par": pf["par"], "strings": strings_class(pf["set"])}
 
 
 def extract_program(progfile, progid):
@@ -160,6 +171,7 @@ def obj_programs(focus, kind, par, setname, S, section, secfn, origins=("built",
     """programs that run secfn(h, its) on a built object and on objects loaded from its image"""
     progs = []
     pt = partag(par, kind)
+    SET_INFO.setdefault(setname, max(len(x) for x in S))
     if "built" in origins and kind not in G.SAVE_ONLY_WHEN_BUILT:
         p = G.Prog("%s|%s|%s|%s|%s|built" % (focus, kind, pt, setname, section))
         its = G.Its()
@@ -192,6 +204,8 @@ def input_sets(rng, thorough, quick_small=60, small_maxn=4):
     sm3 = sm3 if thorough else rng.sample(sm3, 10)
     out += [("t%d" % i, S, True) for i, S in enumerate(sm3)]
     out += [(n, S, False) for n, S in G.shape_sets(rng, thorough).items()]
+    for n, S, _small in out:
+        SET_INFO[n] = max(len(x) for x in S)
     return out
 
 
